@@ -433,15 +433,24 @@ class NetworkGraph(AbstractBaseIR):
             buf = f'{var}_buffer{buffer_id}'
             buf_out = f'{var}_buffered{buffer_id}'
             var_dict[buf] = {'vtype': 'variable', 'dtype': 'float',
-                             'shape': (Ns, d_steps + 1), 'value': 0.}
+                             'shape': (Ns, d_steps + 1) if Ns > 1 else (d_steps + 1,), 'value': 0.}
             var_dict[buf_out] = {'vtype': 'variable', 'dtype': 'float',
                                  'shape': (Ns,), 'value': 0.}
-            # Inline d_steps as a literal so index_axis returns shape (Ns,) not (Ns, 1)
-            buffer_eqs = [
-                f"index_axis({buf}) = roll({buf}, 1, 1)",
-                f"index_axis({buf}, 0, 1) = {var}",
-                f"{buf_out} = index_axis({buf}, {d_steps}, 1)",
-            ]
+            if Ns > 1:
+                # Inline d_steps as a literal so index_axis returns shape (Ns,) not (Ns, 1)
+                buffer_eqs = [
+                    f"index_axis({buf}) = roll({buf}, 1, 1)",
+                    f"index_axis({buf}, 0, 1) = {var}",
+                    f"{buf_out} = index_axis({buf}, {d_steps}, 1)",
+                ]
+            else:
+                # a population with a single unit has scalar variables: 1-D buffer, read with a literal index such
+                # that the buffered value is a scalar as well (as for scalar edges in `_add_edge_buffer`)
+                buffer_eqs = [
+                    f"index_axis({buf}) = roll({buf}, 1)",
+                    f"index({buf}, 0) = {var}",
+                    f"{buf_out} = index({buf}, {d_steps})",
+                ]
         else:
             # --- ODE cascade (gamma kernel or adaptive step size) ---
             if spread is not None and spread > 0:
